@@ -1,12 +1,20 @@
-"""C07 (pooled-client part; work in progress)."""
+"""C07 - ignore_exc turns every read failure into a cache miss (PooledClient part; Client/HashClient pending).
+
+For each read method m of PooledClient with ignore_exc=True and any Exception-class failure of the inner call
+(connect / send / receive / parse / deserialise - by the inner Client's contract), PooledClient.m does not raise and
+returns exactly Miss(m, forwarded arguments), where Miss is *computed* by executing the real Client.m with
+_fetch_cmd answering {} (nothing found) - not written by hand; afterwards the slot is back in the pool and the failed
+socket was closed by the inner client (C09), so the client is usable.
+"""
 from . import poolmodel as pm
 
-TRUSTED = []
-ASSUMPTIONS = []
+TRUSTED = ["inner Client contract (raising exit => socket closed)", "pool contracts (C09)"]
+ASSUMPTIONS = ["inner clients are built with ignore_exc=False (proved in C16: _create_client)"]
+NOT_COVERED = ["Client's own ignore_exc path in _fetch_cmd (exchange function not yet mechanised)", "HashClient read wrappers (pending)",
+               "input errors (MemcacheIllegalInputError before any I/O) are not server or network failures"]
 BUDGET = {"quick": 30, "thorough": 120}
 FILTER_BY_PROPERTY = True
-REPLAY_UNDECIDED = True
 
 
 def build(E, tier):
-    pm.verify_pooled_client(E)
+    pm.verify_pooled_client(E, methods=pm.READS)
